@@ -21,16 +21,16 @@ def WfD (a : Arr α) : Prop := a.data.length = size a.shape ∧ ∀ v ∈ a.shap
 theorem f3_from_f2 (a : Arr α) (h : WfD a) (h3 : a.shape.length = 3) (hs : sumList a.data ≠ 0) :
     ∃ mAB mAC mBC, marginalize a [2] = .ok mAB ∧ marginalize a [1] = .ok mAC ∧ marginalize a [0] = .ok mBC ∧
       statF3 (normalized a) =
-        (statF2 (normalized mAB) + statF2 (normalized mAC) - statF2 (normalized mBC)) / 2 := by
-  sorry
+        (statF2 (normalized mAB) + statF2 (normalized mAC) - statF2 (normalized mBC)) / 2 :=
+  sd_f3_from_f2 a h.1 h3
 
 /-- f4(A, B; C, D) = ½ (f2(A, D) + f2(B, C) − f2(A, C) − f2(B, D)). -/
 theorem f4_from_f2 (a : Arr α) (h : WfD a) (h4 : a.shape.length = 4) (hs : sumList a.data ≠ 0) :
     ∃ mAD mBC mAC mBD, marginalize a [1, 2] = .ok mAD ∧ marginalize a [0, 3] = .ok mBC ∧
       marginalize a [1, 3] = .ok mAC ∧ marginalize a [0, 2] = .ok mBD ∧
       statF4 (normalized a) =
-        (statF2 (normalized mAD) + statF2 (normalized mBC) - statF2 (normalized mAC) - statF2 (normalized mBD)) / 2 := by
-  sorry
+        (statF2 (normalized mAD) + statF2 (normalized mBC) - statF2 (normalized mAC) - statF2 (normalized mBD)) / 2 :=
+  sd_f4_from_f2 a h.1 h4
 
 /-! non-vacuity -/
 example : (marginalize (⟨(List.range 24).map (fun (n : Nat) => (n : Rat)), [2, 3, 4]⟩ : Arr Rat) [1]).toOption.map (·.shape) = some [2, 4] := by
